@@ -87,6 +87,51 @@ let parse_op (toks : string list) : op =
   | ["free"; i] -> OpFree (n i)
   | ["stradd"; i; s] -> OpStrAdd (n i, h s)
   | ["strget"; i; idx] -> OpStrGet (n i, n idx)
+  | ["symadd"; a; b; c; d; e; f; g] -> OpSymAdd (n a, n b, n c, n d, n e, n f, n g)
+  | ["symadds"; a; b; nm; c; d; e; f; g] -> OpSymAddS (n a, n b, h nm, n c, n d, n e, n f, n g)
+  | ["symget"; a; b] -> OpSymGet (n a, n b)
+  | ["symname"; a; nm] -> OpSymName (n a, h nm)
+  | ["symval"; a; v] -> OpSymVal (n a, n v)
+  | ["symnum"; a] -> OpSymNum (n a)
+  | ["arrange"; a; b] -> OpArrange (n a, n b)
+  | ["reladd"; a; r; o; sy; ty; ad] -> OpRelAdd (n a, bool_of r, n o, n sy, n ty, n ad)
+  | ["reladdi"; a; r; o; inf; ad] -> OpRelAddI (n a, bool_of r, n o, n inf, n ad)
+  | ["relget"; a; i] -> OpRelGet (n a, n i)
+  | ["relgetf"; a; i] -> OpRelGetF (n a, n i)
+  | ["relset"; a; i; o; sy; ty; ad] -> OpRelSet (n a, n i, n o, n sy, n ty, n ad)
+  | ["relswap"; a; x; y] -> OpRelSwap (n a, n x, n y)
+  | ["relnum"; a] -> OpRelNum (n a)
+  | ["dynnew"; k; sec] -> OpDynNew (n k, n sec)
+  | ["dynnum"; k] -> OpDynNum (n k)
+  | ["dynget"; k; i] -> OpDynGet (n k, n i)
+  | ["dynadd"; k; t; v] -> OpDynAdd (n k, n t, n v)
+  | ["dynadds"; k; t; str] -> OpDynAddS (n k, n t, h str)
+  | ["notenew"; k; "sec"; i] -> OpNoteNew (n k, false, n i)
+  | ["notenew"; k; "seg"; i] -> OpNoteNew (n k, true, n i)
+  | ["notenum"; k] -> OpNoteNum (n k)
+  | ["noteget"; k; i] -> OpNoteGet (n k, n i)
+  | ["noteadd"; k; t; nm; d] -> OpNoteAdd (n k, n t, h nm, h d)
+  | ["arradd"; sec; w; a] -> OpArrAdd (n sec, n w, n a)
+  | ["arrget"; sec; w; i] -> OpArrGet (n sec, n w, n i)
+  | ["arrnum"; sec; w] -> OpArrNum (n sec, n w)
+  | ["modnew"; k; sec] -> OpModNew (n k, n sec)
+  | ["modnum"; k] -> OpModNum (n k)
+  | ["modget"; k; i] -> OpModGet (n k, n i)
+  | ["modfind"; k; f] -> OpModFind (n k, h f)
+  | ["modadd"; k; f; v] -> OpModAdd (n k, h f, h v)
+  | ["vsnew"; k; sec] -> OpVsNew (n k, n sec)
+  | ["vsnum"; k] -> OpVsNum (n k)
+  | ["vsget"; k; i] -> OpVsGet (n k, n i)
+  | ["vsmod"; k; i; v] -> OpVsMod (n k, n i, n v)
+  | ["vsadd"; k; v] -> OpVsAdd (n k, n v)
+  | ["vnnew"; k; sec] -> OpVnNew (n k, n sec)
+  | ["vnnum"; k] -> OpVnNum (n k)
+  | ["vnget"; k; i] -> OpVnGet (n k, n i)
+  | ["vdnew"; k; sec] -> OpVdNew (n k, n sec)
+  | ["vdnum"; k] -> OpVdNum (n k)
+  | ["vdget"; k; i] -> OpVdGet (n k, n i)
+  | ["hashelf"; nm] -> OpHashElf (h nm)
+  | ["hashgnu"; nm] -> OpHashGnu (h nm)
   | _ -> failwith ("bad op: " ^ String.concat " " toks)
 
 let fault_name = function
